@@ -398,7 +398,28 @@ def r5_fresh_and_static(ctx, rule="C03.R5"):
             ok = mir.strip_all(pv.of_operand(t["args"][1])) == ("param", 1)
     ctx.decide(ok, rule, rule + ":static-keyed-by-scope-name", g.loc, "static_memory_blocks.get(&scope_name)",
                "the STATIC block is not looked up by the procedure's scope name")
-    ctx.require(rule, 3)
+    # `a FUNCTION returns the last value assigned to its name (zero or empty string if none)`: the
+    # result variable lives in the function's memory block, which a STATIC function keeps; the read
+    # of the result at the end of the call must therefore also reset the variable (take it), else a
+    # call that assigns nothing returns the value of the previous call
+    h = [f for f in prog.fns.values() if f.name == "stash_function_return_value" and f.crate == "rusty_basic"]
+    if len(h) != 1:
+        raise CheckError("anchor stash_function_return_value")
+    h = h[0]
+    hpv = mir.Prov(h.body)
+    taken = False
+    cloned = False
+    for b, t in h.body.calls():
+        if mir.callee_path(t).split("::")[-1] == "set_function_result" and len(t["args"]) > 1:
+            o = hpv.of_operand(t["args"][1])
+            taken = mir.origin_mentions(o, lambda x: x[0] == "call" and x[1].split("::")[-1] in ("replace", "take", "swap"))
+            cloned = o[0] == "clone" or mir.origin_mentions(o, lambda x: x[0] == "clone")
+    ctx.decide(taken, rule, rule + ":function-result-is-taken", h.loc,
+               "the result variable is reset when it is read",
+               "stash_function_return_value %s the function's result variable and leaves it set: a STATIC "
+               "function keeps its memory block, so a later call that does not assign its name returns the "
+               "value of the earlier call instead of zero / the empty string" % ("clones" if cloned else "reads"))
+    ctx.require(rule, 4)
 
 
 def r9_queue_not_reentered(ctx, rule="C03.R9"):
